@@ -1,4 +1,4 @@
-import RecipeGrid.Model.Fmt
+import RecipeGrid.Model.Html
 /-! Line protocol: one request S-expression per line, one reply per line. -/
 namespace RG
 open Sexp
@@ -29,6 +29,45 @@ def dispatch : Sexp → Sexp
   | .list [.atom "rnum", a] =>
     match Num.ofSexp? a with
     | some a => Sexp.ofStr (renderNumber a)
+    | _ => err "args"
+  | .list [.atom "scale", k, bs] =>
+    match Num.ofSexp? k, blocksOfSexp? bs with
+    | some k, some bs => blocksToSexp (scaleBlocks k bs)
+    | _, _ => err "args"
+  | .list [.atom "layout", t] =>
+    match Tree.ofSexp? t with
+    | some t => (layout t).toSexp
+    | _ => err "args"
+  | .list [.atom "html", pre, t] =>
+    match pre.asStr?, Tree.ofSexp? t with
+    | some pre, some t => Sexp.ofStr (renderRecipeTree pre t)
+    | _, _ => err "args"
+  | .list [.atom "conv", spec, a, b] =>
+    match spec.asBool?, a.asStr?, b.asStr? with
+    | some spec, some a, some b => Sexp.ofOpt Num.toSexp (convertBetween spec a b)
+    | _, _, _ => err "args"
+  | .list [.atom "alts", u] =>
+    match u.asStr? with
+    | some u => Sexp.ofOpt (Sexp.ofList fun (n, s) => Sexp.list [n.toSexp, Sexp.ofStr s]) (altUnits u)
+    | _ => err "args"
+  | .list [.atom "eqv", a, b] =>
+    match Quantity.ofSexp? a, Quantity.ofSexp? b with
+    | some a, some b => Sexp.ofBool (a.hasEqualValueTo b)
+    | _, _ => err "args"
+  | .list [.atom "svs", .atom op, x] =>
+    match Svs.ofSexp? x with
+    | some x =>
+      match op with
+      | "lower" => Svs.toSexp (Svs.lower x)
+      | "strip" => Svs.toSexp (Svs.strip x)
+      | "norm" => Svs.toSexp (Svs.normalise x)
+      | "render" => Sexp.ofStr (Svs.render x)
+      | "html" => Sexp.ofStr (renderSvs x)
+      | _ => err "op"
+    | _ => err "args"
+  | .list [.atom "valid", bs] =>
+    match blocksOfSexp? bs with
+    | some bs => Sexp.ofBool (checkBlocks [] bs)
     | _ => err "args"
   | _ => err "unknown"
 
